@@ -96,7 +96,7 @@ Definition t_methods : table := [
   ("T.Name", [
     IAcc F_T_tb false;
     ICall "tb.Name"]);
-  (* engine.go:739 *)
+  (* engine.go:740 *)
   ("T.Log", [
     IAcc F_T_rawLog false;
     IAcc F_T_rawLog false;
@@ -106,7 +106,7 @@ Definition t_methods : table := [
     ICall "t.tb.Helper";
     IAcc F_T_tb false;
     ICall "t.tb.Log"]);
-  (* engine.go:730 *)
+  (* engine.go:731 *)
   ("T.Logf", [
     IAcc F_T_rawLog false;
     IAcc F_T_rawLog false;
@@ -116,7 +116,7 @@ Definition t_methods : table := [
     ICall "t.tb.Helper";
     IAcc F_T_tb false;
     ICall "t.tb.Logf"]);
-  (* engine.go:787 *)
+  (* engine.go:788 *)
   ("T.Error", [
     IAcc F_T_tbLog false;
     IAcc F_T_tb false;
@@ -136,7 +136,7 @@ Definition t_methods : table := [
       IAcc F_T_parent false;
       ICall "t.parent.fail";
       IAcc F_T_failed false]]);
-  (* engine.go:778 *)
+  (* engine.go:779 *)
   ("T.Errorf", [
     IAcc F_T_tbLog false;
     IAcc F_T_tb false;
@@ -156,7 +156,7 @@ Definition t_methods : table := [
       IAcc F_T_parent false;
       ICall "t.parent.fail";
       IAcc F_T_failed false]]);
-  (* engine.go:817 *)
+  (* engine.go:818 *)
   ("T.Fail", [
     ILocked MU_T_mu MW [
       IAcc F_T_failed true;
@@ -164,11 +164,11 @@ Definition t_methods : table := [
       IAcc F_T_parent false;
       ICall "t.parent.fail";
       IAcc F_T_failed false]]);
-  (* engine.go:821 *)
+  (* engine.go:822 *)
   ("T.Failed", [
     ILocked MU_T_mu MR [
       IAcc F_T_failed false]]);
-  (* engine.go:581 *)
+  (* engine.go:582 *)
   ("T.Context", [
     ILocked MU_T_mu MR [
       IAcc F_T_ctx false];
@@ -185,12 +185,12 @@ Definition t_methods : table := [
       ICall "context.WithCancel";
       IAcc F_T_ctx true;
       IAcc F_T_cancelCtx true]]);
-  (* engine.go:640 *)
+  (* engine.go:641 *)
   ("T.Cleanup", [
     ILocked MU_T_mu MW [
       IAcc F_T_cleanups false;
       IAcc F_T_cleanups true]]);
-  (* engine.go:758 *)
+  (* engine.go:759 *)
   ("T.Skip", [
     IAcc F_T_tbLog false;
     IAcc F_T_tb false;
@@ -205,7 +205,7 @@ Definition t_methods : table := [
     ICall "t.tb.Log";
     ICall "fmt.Sprint";
     IAtomic F_T_skipping true]);
-  (* engine.go:749 *)
+  (* engine.go:750 *)
   ("T.Skipf", [
     IAcc F_T_tbLog false;
     IAcc F_T_tb false;
@@ -220,10 +220,10 @@ Definition t_methods : table := [
     ICall "t.tb.Logf";
     ICall "fmt.Sprintf";
     IAtomic F_T_skipping true]);
-  (* engine.go:773 *)
+  (* engine.go:774 *)
   ("T.SkipNow", [
     IAtomic F_T_skipping true]);
-  (* engine.go:805 *)
+  (* engine.go:806 *)
   ("T.Fatal", [
     IAcc F_T_tbLog false;
     IAcc F_T_tb false;
@@ -243,7 +243,7 @@ Definition t_methods : table := [
       IAcc F_T_parent false;
       ICall "t.parent.fail";
       IAcc F_T_failed false]]);
-  (* engine.go:796 *)
+  (* engine.go:797 *)
   ("T.Fatalf", [
     IAcc F_T_tbLog false;
     IAcc F_T_tb false;
@@ -263,7 +263,7 @@ Definition t_methods : table := [
       IAcc F_T_parent false;
       ICall "t.parent.fail";
       IAcc F_T_failed false]]);
-  (* engine.go:813 *)
+  (* engine.go:814 *)
   ("T.FailNow", [
     ILocked MU_T_mu MW [
       IAcc F_T_failed true;
@@ -271,7 +271,7 @@ Definition t_methods : table := [
       IAcc F_T_parent false;
       ICall "t.parent.fail";
       IAcc F_T_failed false]]);
-  (* engine.go:833 *)
+  (* engine.go:834 *)
   ("T.fail", [
     ILocked MU_T_mu MW [
       IAcc F_T_failed true;
@@ -279,17 +279,17 @@ Definition t_methods : table := [
       IAcc F_T_parent false;
       ICall "t.parent.fail";
       IAcc F_T_failed false]]);
-  (* engine.go:872 *)
+  (* engine.go:873 *)
   ("T.failOnError", [
     ILocked MU_T_mu MR [
       IAcc F_T_failed false;
       IAcc F_T_failed false]]);
-  (* engine.go:850 *)
+  (* engine.go:851 *)
   ("T.failedError", [
     ILocked MU_T_mu MR [
       IAcc F_T_failed false;
       IAcc F_T_failed false]]);
-  (* engine.go:649 *)
+  (* engine.go:650 *)
   ("T.cleanup", [
     IAtomic F_T_cleaning true;
     ILocked MU_T_mu MW [
@@ -317,11 +317,11 @@ Definition t_methods : table := [
       IAcc F_T_cleanups false];
     ICall "T.cleanup (recursive)";
     IAtomic F_T_cleaning true]);
-  (* engine.go:566 *)
+  (* engine.go:567 *)
   ("T.shouldLog", [
     IAcc F_T_rawLog false;
     IAcc F_T_tbLog false]);
-  (* engine.go:694 *)
+  (* engine.go:695 *)
   ("T.runCleanup", [
     IAtomic F_T_skipping true;
     ICall "cleanup";
@@ -332,12 +332,12 @@ Definition t_methods : table := [
       IAcc F_T_noData true];
     ICall "root.mu.Lock";
     ICall "root.mu.Unlock"]);
-  (* engine.go:861 *)
+  (* engine.go:862 *)
   ("T.skippedError", [
     ILocked MU_T_mu MR [
       IAcc F_T_skipped false;
       IAcc F_T_skipped false]]);
-  (* engine.go:828 *)
+  (* engine.go:829 *)
   ("T.skip", [
     IAtomic F_T_skipping true])
 ].
